@@ -20,3 +20,7 @@ pub open spec fn rr_ids(c: u32, n: u32, k: nat) -> Seq<u32>
 {
     if k == 0 { Seq::<u32>::empty() } else { seq![rr_step(c, n).0] + rr_ids(rr_step(c, n).1, n, (k - 1) as nat) }
 }
+
+// where the rotation stands: the id the next balanced send will get. A cursor beyond the count (count + 1 after a
+// full round, or anything larger after the count shrank) restarts at 1.
+pub open spec fn rr_norm(c: u32, n: u32) -> int { if c > n { 1 } else { c as int } }
